@@ -86,6 +86,17 @@ def cases(sh, tier):
         for n in (1, 2):
             for scheme in ("backward", "centered"):
                 yield {"a": big, "op": "diff", "axis": NAMES[p], "ak": "name", "p": p, "n": n, "scheme": scheme, "keepaxis": False}
+    if kind == "i" and nd <= 2 and sh["size"] >= 2 and min(s["labels"][p]) >= 0:
+        # unsigned labels (uint8 / uint64) in any stored order: a step between two labels may be negative, which their own type cannot hold
+        for ldt in ("uint8", "uint64"):
+            if max(s["labels"][p]) > 255:
+                continue
+            us = dict(s, ldt=[ldt if i == p else None for i in range(nd)])
+            us.pop("var", None)
+            for n in (1, 2, 3):
+                for scheme in ("backward", "forward", "centered"):
+                    for keep in (False, True):
+                        yield {"a": us, "op": "diff", "axis": NAMES[p] if n != 2 else p - nd, "ak": "name" if n != 2 else "pos", "p": p, "n": n, "scheme": scheme, "keepaxis": keep}
     if nd <= 2 and sh["vk"] == "i" and sh["size"] >= 3:
         # unsigned 64-bit values that go up AND down: NumPy's n-th difference is computed in the values' own (modular) arithmetic
         u = dict(s, vk="u8", enc="nl")
